@@ -7,7 +7,7 @@
 (* clauses and the run goes on; Consumed (POSTCONDITION) demands that      *)
 (* every step of every case was judged.                                    *)
 (***************************************************************************)
-EXTENDS JudgeC01, Json, IOUtils, TLCExt
+EXTENDS JudgeC01, JudgeHist, Json, IOUtils, TLCExt
 
 Cases == JsonDeserialize(IOEnv.CASES)
 
@@ -17,15 +17,23 @@ vars == <<k, l>>
 NSteps(c) == IF "steps" \in DOMAIN c THEN Len(c.steps) ELSE 1
 TotalSteps == FoldLeft(LAMBDA a, c : a + NSteps(c), 0, Cases)
 
+HistFails(c, s) ==
+  CASE c.prop = "C02" -> C02StepFails(c, s)
+
 Fails(c, s) ==
   CASE c.kind = "eval"    -> C01EvalFails(c)
     [] c.kind = "optable" -> C01OpTableFails(c)
     [] c.kind = "ttcode"  -> C01TTCodeFails(c)
+    [] c.kind = "hist"    -> HistFails(c, s)
+
+Drift(c, s) == IF c.kind = "hist" THEN HistDrift(c, s) ELSE {}
 
 Init == k = 1 /\ l = 1
 Next == /\ k <= Len(Cases)
         /\ LET f == Fails(Cases[k], l)
-           IN  IF f = {} THEN TRUE ELSE PrintT(<<"VERDICT", Cases[k].id, l, f>>)
+               d == Drift(Cases[k], l)
+           IN  /\ IF f = {} THEN TRUE ELSE PrintT(<<"VERDICT", Cases[k].id, l, f>>)
+               /\ IF d = {} THEN TRUE ELSE PrintT(<<"DRIFT", Cases[k].id, l, d>>)
         /\ IF l < NSteps(Cases[k]) THEN l' = l + 1 /\ k' = k
                                     ELSE l' = 1 /\ k' = k + 1
 Spec == Init /\ [][Next]_vars
